@@ -163,6 +163,13 @@ def check_case(case):
         return [dict(signature=f"extrapolate/exception/{type(e).__name__}", observed=repr(e), expected="a table")], "exception"
     exp = ref_extrapolate(dict(table), list(to_x))
     cls = "extrapolated" if len(exp) > len(table) else "nothing-to-add"
+    if len(to_x) > 1:
+        try:     # the order in which the types are *listed* is not an input of the statement (the order of the table is)
+            got_r = dict(extrapolate_templates(dict(table), list(reversed(to_x))))
+            if list(got_r.items()) != list(exp.items()):
+                out.append(dict(signature="extrapolate/differs/listed-in-another-order", observed=list(got_r.items())[:8], expected=list(exp.items())[:8]))
+        except Exception as e:  # noqa
+            out.append(dict(signature=f"extrapolate/exception/{type(e).__name__}/listed-in-another-order", observed=repr(e), expected="a table"))
     if list(got.items()) != list(exp.items()):
         collide = any(x.split(SEP)[-1] in x.split(SEP)[0] for x in to_x if SEP in x)
         if collide and sorted(got.values()) == sorted(exp.values()) or (collide and len(got) != len(exp)):
@@ -255,6 +262,7 @@ def loader_configs(tier):
             out.append((entries, [x], kp))
             if len(extr) > 1:
                 out.append((entries, extr[:2], kp))
+                out.append((entries, list(reversed(extr[:3])), kp))     # listed in another order than the templates are written
     want = 480 if tier == "thorough" else 96
     step = max(1, len(out) // want)
     return out[::step][:want]
